@@ -28,6 +28,8 @@ heap memory that was never written, is an explicit outcome `Site`:
 * `uninitRead`    — `_characters`: `inner_text` was NULL, `realloc` returned a fresh block and
                     only `inner_text[used]` was written with `used > 0`: `strncat` then scans
                     `used` bytes nobody wrote (in practice: heap garbage in front of the text);
+* `textOverflow`  — `_characters`: the string `strncat` builds (terminator included) does not fit
+                    into the `inner_text_size` bytes of the buffer;
 * `endStanzaNull` — `_end_element`: `parser->stanza->parent` with `parser->stanza == NULL`;
 * `textParentNull`— `complete_inner_text`: `xmpp_stanza_add_child_ex(parser->stanza, …)` with
                     `parser->stanza == NULL` (`stanza->children` is read).
@@ -116,7 +118,7 @@ structure State where
 def init : State := { depth := 0, path := [], innerText := none, used := 0, size := 0 }
 
 inductive Site where
-  | strncatNull | uninitRead | endStanzaNull | textParentNull
+  | strncatNull | uninitRead | textOverflow | endStanzaNull | textParentNull
   deriving DecidableEq, Repr
 
 /-- what the owner of the parser sees -/
@@ -179,24 +181,31 @@ def cstr : Bytes → Bytes
   | [] => []
   | c :: rest => if c = 0 then [] else c :: cstr rest
 
+/-- `parser->inner_text_used += len; strncat(parser->inner_text, s, len);` on a buffer of `s.size`
+    bytes that holds the C string `t`: the string, its terminator included, must fit -/
+def appendText (s : State) (t data : Bytes) : Except Site (State × List Ev) :=
+  let t' := t ++ cstr data
+  if t'.length + 1 ≤ s.size then
+    .ok ({ s with innerText := some t', used := s.used + data.length }, [])
+  else .error .textOverflow
+
 /-- `_characters` -/
 def characters (s : State) (data : Bytes) : Except Site (State × List Ev) :=
   if s.depth < (parserTextMinDepth : Int) then .ok (s, [])
   else
     let len := data.length
     if s.used + len ≥ s.size then
-      -- realloc(inner_text, used + len + 1 + PADDING); inner_text[used] = '\0'
-      let size' := s.used + len + 1 + padding
+      -- realloc(inner_text, used + len + 1 + PADDING) keeps the old bytes;
+      -- inner_text[used] = '\0' ends the string at `used` at the latest
+      let s' := { s with size := s.used + len + 1 + padding }
       match s.innerText with
-      | some t =>
-        .ok ({ s with innerText := some (t ++ cstr data), used := s.used + len, size := size' }, [])
+      | some t => appendText s' (t.take s.used) data
       | none =>
-        if s.used = 0 then
-          .ok ({ s with innerText := some (cstr data), used := len, size := size' }, [])
+        if s.used = 0 then appendText s' [] data
         else .error .uninitRead
     else
       match s.innerText with
-      | some t => .ok ({ s with innerText := some (t ++ cstr data), used := s.used + len }, [])
+      | some t => appendText s t data
       | none => .error .strncatNull
 
 /-- `parser_reset` (the expat side is outside the model): frees the stanza under construction and
